@@ -3,6 +3,7 @@ package lisp
 import (
 	"encoding/json"
 	"os"
+	"runtime/debug"
 	"strings"
 	"testing"
 )
@@ -15,6 +16,8 @@ func TestVerifReplay(t *testing.T) {
 	if entry == "" {
 		t.Skip("VERIF_ENTRY not set")
 	}
+	// an unbounded recursion should die quickly (fatal error: stack overflow), not after 1 GB
+	debug.SetMaxStack(64 << 20)
 	out := verifRun(entry)
 	t.Logf("VERIF-OUTCOME %s: %s", entry, out)
 	for _, o := range vState.obs {
